@@ -139,7 +139,7 @@ def run(spec, out):
         case = G.generate(rng, nprng, family=rng.choice(fams), P={"maxlen": spec["maxlen"]})
         fn = getattr(einx, case.op)
         base_desc = case.desc()
-        edits = ["dim", "drop-root-axis", "dup-root-axis", "remove-kw", "contradict-kw", "remove-tensor", "add-tensor", "insert-token", "kw-type", "bracket-one-occurrence", "bracket-axis-everywhere"]
+        edits = ["dim", "drop-root-axis", "dup-root-axis", "remove-kw", "contradict-kw", "remove-tensor", "add-tensor", "insert-token", "kw-type", "bracket-one-occurrence", "bracket-axis-everywhere", "drop-output"]
         for edit in rng.sample(edits, 4):
             inputs = [copy_expr(e) for e in case.inputs]
             outputs = None if case.outputs is None else [copy_expr(e) for e in case.outputs]
@@ -231,6 +231,22 @@ def run(spec, out):
                             items_[pos_] = Br([Ax(nm)])
                     if case.family in ("id", "elementwise"):
                         proof = "rule:no-brackets-in-this-operation"
+            elif edit == "drop-output":
+                if outputs is None:
+                    continue
+                outputs = None
+                # (a dot without any bracket and without '->' degenerates to the element-wise superset rule: not judged)
+                if case.family == "get_at" or (case.family == "dot" and any(isinstance(n_, Br) for e_ in inputs for n_ in walk(e_))):
+                    proof = "rule:output-expression-required"
+                elif case.family == "elementwise" and len(inputs) >= 2:
+                    # documented rule: the output may be omitted only if exactly one input contains the axis names of all others
+                    def names_of(e_):
+                        return {n_.name for n_ in walk(e_) if isinstance(n_, Ax)} | {n_.uid for n_ in walk(e_) if isinstance(n_, Num) and n_.value != 1}
+                    ns = [names_of(e_) for e_ in inputs]
+                    texts = [pr(e_) for e_ in inputs]
+                    parents = [i_ for i_ in range(len(ns)) if all(ns[j_] <= ns[i_] for j_ in range(len(ns)) if j_ != i_)]
+                    if len(parents) == 0 or len({texts[i_] for i_ in parents}) > 1:
+                        proof = "rule:implicit-output-not-unique"
             elif edit == "kw-type":
                 if not kw:
                     continue
